@@ -60,12 +60,27 @@ THEOREMS = {
 }
 
 
+def _load_baseline():
+    import os
+    path = os.path.join(common.CORPUS, "c17_documented_accepted.txt")
+    try:
+        return set(l.rstrip("\n") for l in open(path) if l.strip())
+    except OSError:
+        return set()
+
+
+# documented declarations (docs/*.rst, regression/input/*.yaml) that check_decl alone accepts on the unchanged tree
+DOC_BASELINE = _load_baseline()
+
+
 def balanced(text):
     """parentheses and brackets of the source are balanced and never close below zero"""
-    declast, _ = dc.mods()
+    toks0 = dc.safe_tokenize(text)
+    if toks0 is None:
+        return True       # cannot be judged with this tokenizer; the tie and the documented-declaration stream report it
     for o, c in (("LPAREN", "RPAREN"), ("LBRACKET", "RBRACKET")):
         depth = 0
-        toks = list(declast.tokenize(text))
+        toks = toks0
         for i, t in enumerate(toks):
             if o == "LBRACKET" and _in_attr(toks, i):
                 continue      # attribute text is free-form
@@ -81,8 +96,9 @@ def balanced(text):
 
 
 def dangling_equals(text):
-    declast, _ = dc.mods()
-    toks = list(declast.tokenize(text))
+    toks = dc.safe_tokenize(text)
+    if toks is None:
+        return False
     depth = 0
     for i, t in enumerate(toks):
         # inside +attr( ... ) anything goes; only look at '=' outside attribute parentheses
@@ -123,8 +139,10 @@ def crash_key(line, text):
 
 def run(ctx):
     thorough = ctx.tier == "thorough"
-    extract_decl.write()
-    extract_attrs.write()
+    if dc.guarded(ctx, "translator:extract_decl", extract_decl.write) is None:
+        ctx.tie_broken("translator", "Gen/DeclTables.lean could not be regenerated from the tree under test")
+    if dc.guarded(ctx, "translator:extract_attrs", extract_attrs.write) is None:
+        ctx.tie_broken("translator", "Gen/AttrTables.lean could not be regenerated from the tree under test")
     ok = ctx.lean(MODULES, THEOREMS, extra_targets=("drv_decl",))
     r = common.rng("c17")
     ctx.cov["trusted_base"] = [
@@ -142,54 +160,98 @@ def run(ctx):
     ]
     depth = 4 if thorough else 3
     n = 200000 if thorough else 24000
-    cases = c09.corpus_cases("c17.txt")
-    kinds = ["corpus"] * len(cases)
-    c2, k2, gstats = c09.streams(r, n, depth, shares=(2, 4, 3))
-    cases += c2
-    kinds += k2
-    impl, asts = c09.correspondence(ctx, cases, kinds, ok, want_tokens=False, outcome_only=True)
-    ctx.note("generator_branches", dict(sorted(gstats.items(), key=lambda kv: -kv[1])[:30]))
-    for s, a in list(zip(cases, impl))[:: max(1, len(cases) // 6)][:6]:
-        ctx.sample({"decl": s, "impl": a[:160]})
+    st = {"cases": [], "kinds": [], "impl": [], "asts": []}
 
-    # ---- oracle 1: entry point check_decl on all streams
-    for s, line in zip(cases, impl):
-        ctx.count(1)
-        if line.startswith("crash"):
-            ctx.fail(crash_key(line, s), "check_decl(%r) raises %s (internal exception, not a diagnostic)" % (s, line[6:]),
-                     {"kind": "decl", "decl": s})
-        elif line.startswith("ok ") or line.startswith("unmodelled"):
-            if not balanced(s):
-                ctx.fail("silent:unbalanced", "check_decl(%r) accepts unbalanced text" % s, {"kind": "decl", "decl": s})
-            elif dangling_equals(s):
-                ctx.fail("silent:empty-initializer", "check_decl(%r) accepts '=' with no value" % s, {"kind": "decl", "decl": s})
+    def phase_tie():
+        cases = c09.corpus_cases("c17.txt")
+        kinds = ["corpus"] * len(cases)
+        c2, k2, gstats = c09.streams(r, n, depth, shares=(2, 4, 3))
+        cases += c2
+        kinds += k2
+        st["cases"], st["kinds"] = cases, kinds
+        impl, asts = c09.correspondence(ctx, cases, kinds, ok, want_tokens=False, outcome_only=True)
+        st["impl"], st["asts"] = impl, asts
+        ctx.note("generator_branches", dict(sorted(gstats.items(), key=lambda kv: -kv[1])[:30]))
+        for s, a in list(zip(cases, impl))[:: max(1, len(cases) // 6)][:6]:
+            ctx.sample({"decl": s, "impl": a[:160]})
 
-    # ---- oracle 2: documented declarations are accepted
-    from tools.props import decl_harvest
-    try:
+    def ensure_impl():
+        if st["cases"] and not st["impl"]:
+            for s in st["cases"]:
+                line, a = dc.real_parse(s)
+                st["impl"].append(line)
+                st["asts"].append(a)
+
+    def phase_entry_point():
+        # ---- oracle 1: entry point check_decl on all streams
+        for s, line in zip(st["cases"], st["impl"]):
+            ctx.count(1)
+            if line.startswith("crash"):
+                ctx.fail(crash_key(line, s), "check_decl(%r) raises %s (internal exception, not a diagnostic)" % (s, line[6:]),
+                         {"kind": "decl", "decl": s})
+            elif line.startswith("ok ") or line.startswith("unmodelled"):
+                if not balanced(s):
+                    ctx.fail("silent:unbalanced", "check_decl(%r) accepts unbalanced text" % s, {"kind": "decl", "decl": s})
+                elif dangling_equals(s):
+                    ctx.fail("silent:empty-initializer", "check_decl(%r) accepts '=' with no value" % s, {"kind": "decl", "decl": s})
+
+    def phase_documented():
+        # ---- oracle 2: documented declarations are accepted
+        from tools.props import decl_harvest
         failures = decl_harvest.accept_all(common.REPO)
-    except Exception as e:  # noqa
-        failures = []
-        ctx.tie_broken("decl-harvest", "%s: %s" % (type(e).__name__, e))
-    ctx.note("documented_decl_failures", len(failures))
-    try:
-        ctx.note("documented_decls", len(decl_harvest.harvest(common.REPO)))
-    except Exception:  # noqa
-        pass
-    for src, decl, exc in failures:
-        ctx.count(1)
-        key = "doc-rejected:%s:%s" % (str(src).split("/")[-1].split(":")[0], decl.strip()[:40])
-        ctx.fail(key, "documented declaration %r (%s) is not accepted: %s" % (decl, src, str(exc).split("\n")[-1][:120]),
-                 {"kind": "doc", "source": str(src), "decl": decl})
+        ctx.note("documented_decl_failures", len(failures))
+        try:
+            ctx.note("documented_decls", len(decl_harvest.harvest(common.REPO)))
+        except Exception:  # noqa
+            pass
+        for src, decl, exc in failures:
+            ctx.count(1)
+            key = "doc-rejected:%s:%s" % (str(src).split("/")[-1].split(":")[0], decl.strip()[:40])
+            ctx.fail(key, "documented declaration rejected: %r (%s) is not accepted: %s" % (
+                decl, src, str(exc).split("\n")[-1][:160]), {"kind": "doc", "source": str(src), "decl": decl})
 
-    # ---- tie of the Lean model of VerifyAttrs (driver op `vattrs`) on the attribute stream
-    from tools.props import c17_vattrs
-    c17_vattrs.run_vattrs(ctx, thorough, ok)
+    def phase_documented_direct():
+        # the documented declarations once more, one by one through check_decl only (no library context): a declaration
+        # accepted on the unchanged tree this way must stay accepted whatever else in the harvest machinery fails
+        from tools.props import decl_harvest
+        n_ok = 0
+        for item in decl_harvest.harvest(common.REPO):
+            src, decl = item[0], item[1]
+            if not isinstance(decl, str) or decl not in DOC_BASELINE:
+                continue
+            line, _ = dc.real_parse(decl)
+            ctx.count(1)
+            if line.startswith("ok ") or line.startswith("unmodelled"):
+                n_ok += 1
+            else:
+                key = "doc-rejected:%s:%s" % (str(src).split("/")[-1].split(":")[0], decl.strip()[:40])
+                ctx.fail(key, "documented declaration rejected: %r (%s): %s" % (
+                    decl, src, common.dec(line.split(" ", 1)[1]) if line.startswith("reject ") else line),
+                    {"kind": "doc", "source": str(src), "decl": decl})
+        ctx.note("documented_decls_direct_ok", n_ok)
 
-    # ---- oracle 3: VerifyAttrs and YAML shapes (implementation only)
-    from tools.props import c17_attrs
-    c17_attrs.run_attrs(ctx, thorough)
-    c17_attrs.run_yaml(ctx, thorough)
+    def phase_vattrs():
+        # ---- tie of the Lean model of VerifyAttrs (driver op `vattrs`) on the attribute stream + boundary family
+        from tools.props import c17_vattrs
+        c17_vattrs.run_vattrs(ctx, thorough, ok)
+
+    def phase_attrs():
+        # ---- oracle 3: VerifyAttrs and YAML shapes (implementation only)
+        from tools.props import c17_attrs
+        c17_attrs.run_attrs(ctx, thorough)
+
+    def phase_yaml():
+        from tools.props import c17_attrs
+        c17_attrs.run_yaml(ctx, thorough)
+
+    dc.guarded(ctx, "tie", phase_tie)
+    dc.guarded(ctx, "implementation-run", ensure_impl)
+    dc.guarded(ctx, "oracle-entry-point", phase_entry_point)
+    dc.guarded(ctx, "oracle-documented", phase_documented)
+    dc.guarded(ctx, "oracle-documented-direct", phase_documented_direct)
+    dc.guarded(ctx, "verifyAttrs-tie", phase_vattrs)
+    dc.guarded(ctx, "oracle-attrs", phase_attrs)
+    dc.guarded(ctx, "oracle-yaml", phase_yaml)
 
 
 def replay(path):
